@@ -496,7 +496,19 @@ def judge_acc(inp, obs, lr):
             tags = {"maxlen": c["maxlen"], "with_words": c["with_words"], "edge_words": c["edge_words"],
                     "dir": "end" if c["end"] is not None else "start", "memo_reused": bool(c.get("keep")), "why": why}
             return {"expected": r, "observed": o, "tags": tags, "call": i}
-        # enumerate_words vs the model's enumWords, and vs the returned words (start direction, maxlen)
+        # the reference path language of the call (model: startLangJ / endLangJ with the representation's word join, and
+        # startLang / endLang by concatenation for a parse_simple representation) against what the implementation returned:
+        # the words as a multiset, or (with_words=False) the number of matrices = number of paths
+        if "ok" in r and not H.exc_name(o):
+            for key in ("lang", "lang0"):
+                lang = sp["ok"][i].get(key)
+                if lang is None:
+                    continue
+                bad = (sorted(o["words"]) != sorted(lang)) if c["with_words"] else (len(o["mats"]) != len(lang))
+                if bad:
+                    return {"expected": sorted(lang), "observed": sorted(o["words"]) if c["with_words"] else len(o["mats"]),
+                            "tags": {"spec": True, "why": "returned words differ from the path language (%s)" % key,
+                                     "dir": "end" if c["end"] is not None else "start", "maxlen": c["maxlen"]}, "call": i}
         e, m = obs["enum"][i], lr[1 + i]
         ee = H.exc_name(e)
         if ee or "err" in m:
